@@ -33,6 +33,7 @@ def run(ctx: Ctx) -> None:
     updaterules.assign_keys(ctx)
     selectrules.bloc_coordinates(ctx)
     resolve.f1_resolver_coverage(ctx)
+    resolve.f1_resolver_operand(ctx)
     d = frozen.Driver(ctx)
     funcs = [f for f in ctx.prog.top_funcs() if f.name.startswith(UPDATE_PREFIXES) or f.name == '__call__' and f.cls is not None
              and f.cls.name in ('FrameAssignILoc', 'FrameAssignBLoc', 'SeriesAssign', 'FrameAsType')]
